@@ -341,11 +341,14 @@ class TraceSet(object):
             if 'xmin' in kwargs:
                 self.xmin = np.float64(kwargs['xmin'])
             else:
-                self.xmin = xpos.min()
+                #
+                # Integer limits would wrap around in xmid and xRange.
+                #
+                self.xmin = xpos.min() if np.issubdtype(xpos.dtype, np.inexact) else np.float64(xpos.min())
             if 'xmax' in kwargs:
                 self.xmax = np.float64(kwargs['xmax'])
             else:
-                self.xmax = xpos.max()
+                self.xmax = xpos.max() if np.issubdtype(xpos.dtype, np.inexact) else np.float64(xpos.max())
             if 'maxiter' in kwargs:
                 maxiter = int(kwargs['maxiter'])
             else:
